@@ -392,7 +392,8 @@ def verifiedKernels : List ((String × String) × String) := [
   (("c/blake3_neon.c", "blake3_hash_many_neon"), "B3.Simd.neon_hash_many_eq"),
   (("src/wasm32_simd.rs", "compress_in_place"), "B3.Simd.wasm_compress_in_place_eq"),
   (("src/wasm32_simd.rs", "compress_xof"), "B3.Simd.wasm_compress_xof_eq"),
-  (("src/wasm32_simd.rs", "hash_many"), "B3.Simd.wasm_hash_many_eq")]
+  (("src/wasm32_simd.rs", "hash_many"), "B3.Simd.wasm_hash_many_eq"),
+  (("c/blake3_sse41_x86-64_windows_gnu.S", "blake3_hash_many_sse41"), "B3.Props.C05MW.asm_wgnu_sse41_hash_many")]
 
 /-- assembly routines without an instruction-level theorem: calling convention proved (G26, `Props/C07A`), results tied to the
 other implementations by the correspondence runs of C05 / C07 on this machine (the Windows-GNU files through `ms_abi`) -/
@@ -402,7 +403,6 @@ def observedKernels : List (String × String) := [
   ("c/blake3_avx512_x86-64_unix.S", "blake3_hash_many_avx512"),
   ("c/blake3_avx512_x86-64_unix.S", "blake3_xof_many_avx512"),
   ("c/blake3_sse2_x86-64_windows_gnu.S", "blake3_hash_many_sse2"),
-  ("c/blake3_sse41_x86-64_windows_gnu.S", "blake3_hash_many_sse41"),
   ("c/blake3_avx2_x86-64_windows_gnu.S", "blake3_hash_many_avx2"),
   ("c/blake3_avx512_x86-64_windows_gnu.S", "blake3_hash_many_avx512")]
 
